@@ -11,7 +11,7 @@ let chunk (r : C10Model.reassembly) =
   Printf.sprintf "%d/%s/%d/%d" (int_of_z r.C10Model.r_skip) (hex_of_bytes r.C10Model.r_bytes)
     (if r.C10Model.r_start then 1 else 0) (if r.C10Model.r_end then 1 else 0)
 
-let run (id : string) (ops : string list) (out : out_channel) =
+let parse (ops : string list) : int * int * C10Model.op list =
   let mp = ref 0 and mt = ref 0 in
   let l = Stdlib.List.filter_map (fun s ->
     match split_on ':' s with
@@ -27,7 +27,11 @@ let run (id : string) (ops : string list) (out : out_channel) =
     | ["fot"; t] -> Some (C10Model.FlushOlderThan (z_of_int (int_of_string t)))
     | ["fall"] -> Some C10Model.FlushAll
     | _ -> failwith ("c10 op: " ^ s)) ops in
-  let tr = C10Model.run (z_of_int !mp) (z_of_int !mt) l in
+  (!mp, !mt, l)
+
+let run (id : string) (ops : string list) (out : out_channel) =
+  let (mp, mt, l) = parse ops in
+  let tr = C10Model.run (z_of_int mp) (z_of_int mt) l in
   let tags = Hashtbl.create 8 in
   Stdlib.List.iteri (fun i ((o : C10Model.out), tg) ->
     Stdlib.List.iter (fun t -> Hashtbl.replace tags (tag_name (int_of_z t)) ()) tg;
@@ -39,3 +43,26 @@ let run (id : string) (ops : string list) (out : out_channel) =
   if tl <> [] then Printf.fprintf out "%s\ttags\t%s\n" id (String.concat "," tl)
 
 let registered = Registry.register "C10" run
+
+(* ---- extraction cross-check inside Coq (see c18.ml): C10Model.run on the case's ops evaluated by
+   vm_compute must equal the (out, tags) list this extracted runner computed. *)
+let coq_op (o : C10Model.op) = match o with
+  | C10Model.Segment (sq, syn, fin, rst, pl, ts, goff) ->
+    Printf.sprintf "Segment %s %s %s %s %s %s %s" (coq_z sq) (coq_bool syn) (coq_bool fin) (coq_bool rst) (coq_zlist pl) (coq_z ts) (coq_z goff)
+  | C10Model.FlushOlderThan t -> "FlushOlderThan " ^ coq_z t
+  | C10Model.FlushAll -> "FlushAll"
+let coq_reassembly (r : C10Model.reassembly) =
+  Printf.sprintf "mkR %s %s %s %s %s %s" (coq_zlist r.C10Model.r_bytes) (coq_z r.C10Model.r_skip) (coq_bool r.C10Model.r_start)
+    (coq_bool r.C10Model.r_end) (coq_z r.C10Model.r_seen) (coq_z r.C10Model.r_cut)
+let coq_out (o : C10Model.out) =
+  Printf.sprintf "mkOut %s %s %s %s" (coq_bool o.C10Model.o_new) (coq_list (coq_list coq_reassembly) o.C10Model.o_calls)
+    (coq_bool o.C10Model.o_done) (coq_bool o.C10Model.o_panic)
+let to_coq (idx : int) (ops : string list) (out : out_channel) =
+  let (mp, mt, l) = parse ops in
+  let nbytes = Stdlib.List.fold_left (fun a o -> match o with C10Model.Segment (_, _, _, _, pl, _, _) -> a + Stdlib.List.length pl | _ -> a) 0 l in
+  if nbytes <= 600 then begin
+    let tr = C10Model.run (z_of_int mp) (z_of_int mt) l in
+    coq_example out idx (Printf.sprintf "C10Model.run %s %s %s" (coq_z (z_of_int mp)) (coq_z (z_of_int mt)) (coq_list coq_op l))
+      ("[" ^ String.concat ";\n     " (Stdlib.List.map (coq_pair coq_out coq_zlist) tr) ^ "]")
+  end
+let registered_coq = Registry.register_coq "C10" ("From GP Require Import Base C10Model.\n", to_coq)
